@@ -44,9 +44,9 @@ def run(chk):
                    "V8"]
     chk.assumptions = ["components are stubs with declared properties / external classes; dynamic-slot content is not part of this check's reference (C06 / C07 run it)",
                        "PARTIAL: creation_denotes (GE/Thm/C04Tag.lean) proves, over the tag-level model GE/Model/TagSem.lean (text, elements with plain attributes, "
-                       "<block>, wx:if / elif / else chains, wx:for without key; expressions abstract), that the elements and text nodes creation builds are, in "
+                       "<block>, <include>, <template is data>, wx:if / elif / else chains, wx:for with and without key; expressions abstract), that the elements and text nodes creation builds are, in "
                        "document order, exactly the ones the template denotes; the model is compared with the real compiler + runtime on generated templates and "
-                       "data (corr:tagsem: structure, attribute values, branch keys, list indexes, node reuse). Template-is / include / slot, the other attribute "
+                       "data (corr:tagsem: structure, attribute values, branch keys, list indexes, node reuse). Slots, the other attribute "
                        "families and the generated JavaScript text between template and runtime are covered by the reference-render oracle only; the Lean part also "
                        "proves the branch selector statement and name normalisation"]
     chk.model_tie([("GE.Thm.C04", THEOREMS), ("GE.Thm.C04Tag", ["GE.TagSem.creation_denotes", "GE.TagSem.create_denotes", "GE.TagSem.firstTrue_range"])])
@@ -172,9 +172,11 @@ def run(chk):
         ([["p", '<template name="cell">first:{{a}}</template><include src="./inc"/><template is="cell" data="{{a}}"/>'], ["inc", "<text>inc:{{a}}</text>"]], ["inc:A", "first:A"]),
         ([["p", '<import src="./lib1"/><view wx:for="{{l}}"><template is="cell" data="{{a: item}}"/></view><template name="cell">own:{{a}}</template>'], ["lib1", lib("lib1")]],
          ["own:1", "own:2"]),
+        # a name that matches no template renders nothing, whatever its type (an empty array has the string form "", the key of the main template)
+        ([["p", '<template name="t">T{{a}}</template><template is="{{d}}" data="{{d, a}}"/><template is="{{l}}" data="{{a}}"/><template is="{{z}}"/>x']], ["x"]),
     ]
     mg = render.compile_templates([m[0] for m in multi])
-    mreqs = [{"op": "render", "gen_groups": g["gen_groups"], "path": "p", "steps": [{"create": {"a": "A", "n": "cell", "l": [1, 2]}}]} for g in mg if isinstance(g.get("gen_groups"), str)]
+    mreqs = [{"op": "render", "gen_groups": g["gen_groups"], "path": "p", "steps": [{"create": {"a": "A", "n": "cell", "l": [1, 2], "d": []}}]} for g in mg if isinstance(g.get("gen_groups"), str)]
     mres = core.run_node(mreqs) if len(mreqs) == len(multi) else []
     if len(mres) != len(multi):
         chk.violation("input", "compiler failed on a multi-file template group", answer=json.dumps(mg)[:300])
